@@ -200,8 +200,7 @@ def diagnose_branch_model(tab, branch, S, I, lib_model=None):
         succ = sorted(b for a, b in access if a == w)
         inner = core[2][0]
         missing = [u for u in succ
-                   if not any(x in (inner, syn.neg(inner), syn.negative(inner)) or _mentions(x, inner)
-                              for x in present.get(u, ()))]
+                   if not any(x in (inner, syn.neg(inner)) for x in present.get(u, ()))]
         if not succ:
             d['diag'] = 'world-without-successor' if S.frame == 'serial' else 'modal-node-no-successor'
         elif missing:
